@@ -420,6 +420,11 @@ def walk(design, mname, path, uf, devices, stack, strict_extra=True):
 
 
 def canon_param(v):
+    if isinstance(v, (tuple, list)) and v and v[0] == "pre":
+        from fractions import Fraction
+
+        val = Fraction(v[1]) * Fraction(10) ** v[2]
+        return int(val) if val.denominator == 1 else str(val)
     return v if isinstance(v, (int, str)) or v is None else repr(v)
 
 
